@@ -171,7 +171,7 @@ def observe_file_api(case) -> dict:
                     else:
                         code = program.assemble(case.get("fname", FNAME), Path("out.bin"), case.get("mapping"))
                 data = Path("out.bin").read_bytes() if Path("out.bin").exists() else None
-                out = {"ret": code, "announced": any("Success" in m for m in cap.messages), "log": "\n".join(cap.messages)[-2000:],
+                out = {"ret": code, "announced": any("Success" in m for m in cap.messages), "log": "\n".join(cap.messages)[-20000:],
                        "file": list(data) if data is not None else None}
                 if code == 0 and case.get("symfile"):
                     program.exports_symbol_file("out.sym")
@@ -231,6 +231,8 @@ def observe_cli(case) -> dict:
             cmd += ["-m", case["mapping"]]
         if case.get("copier"):
             cmd.append("--copier-header")
+        if case.get("dump_symbols"):
+            cmd.append("--dump-symbols")      # prints the symbol table between the passes; changes nothing else
         if case.get("cli_defines"):
             cmd += ["-D"] + [f"{k}={v}" for k, v in case["cli_defines"].items()]
             cmd.append("--")
@@ -243,7 +245,7 @@ def observe_cli(case) -> dict:
         data = Path(d, "out.bin").read_bytes() if Path(d, "out.bin").exists() else None
         return {"exit": p.returncode, "announced": "Success" in (p.stdout + p.stderr),
                 "file": list(data) if data is not None else None, "stderr": (p.stderr or "")[-300:],
-                "stderr_full": ((p.stderr or "") + (p.stdout or ""))[-3000:]}
+                "stderr_full": ((p.stderr or "") + "\n" + (p.stdout or ""))[-20000:]}
 
 
 def observe(case):
@@ -356,12 +358,13 @@ def spec_term(case, ob) -> str:
         x17 = f"(XC17 {C.cstr(sp['file'])} {C.z(sp['line'])} {col} {C.cstr(sp['text'])})"
         # the front ends that were run report the same place in what they log / print ("file:line" followed by ":col"
         # or a blank, then the quoted line on a line of its own)
-        where = f"{sp['file']}:{sp['line']}" + (f":{sp['col']}" if sp.get("col") is not None else " ")
+        import re as _re
+        where = _re.compile(_re.escape(f"{sp['file']}:{sp['line']}") + (_re.escape(f":{sp['col']}") if sp.get("col") is not None else "") + r"(?![0-9:])")
         seen = []
         if ob.get("api") is not None and not ob["api"].get("timeout"):
-            seen.append(where in (ob["api"].get("log") or "") and sp["text"].strip() in (ob["api"].get("log") or ""))
+            seen.append(bool(where.search(ob["api"].get("log") or "")) and sp["text"].strip() in (ob["api"].get("log") or ""))
         if ob.get("cli") is not None and not ob["cli"].get("timeout"):
-            seen.append(where in (ob["cli"].get("stderr_full") or ""))
+            seen.append(bool(where.search(ob["cli"].get("stderr_full") or "")))
         return f"(XAnd {x17} (XFrontSays {C.cbool(all(seen))}))"
     if t == "twin":
         return f"(XTwin {e2eobs_term(ob.get('twin'))} {C.cbool(sp.get('labels', True))})"
